@@ -466,4 +466,66 @@ theorem C20_merge_holds (kps r : List (SSet × List Nat)) (h : mergeScripts kps 
 example : holdsMerge [(["A", "B"], [0]), (["C", "D"], [1]), (["B", "C"], [2])] [(["A", "B", "C", "D"], [0, 1, 2])] = true :=
   C20_merge_holds _ _ (by rfl)
 
+/-! ### the result is a fixed point -/
+
+theorem absorb_of_disjoint (c : SSet) (rest : List SSet) (h : ∀ s ∈ rest, sdisjoint s c = true) :
+    absorb c rest = (c, rest, false) := by
+  induction rest with
+  | nil => rfl
+  | cons s r ih =>
+    unfold absorb
+    simp only [h s mem_cons_self, if_true]
+    rw [ih (fun t ht => h t (mem_cons_of_mem _ ht))]
+
+theorem mergePass_of_disjoint (n : Nat) (sets : List SSet) (hn : sets.length ≤ n)
+    (h : sets.Pairwise (fun a b => sdisjoint b a = true)) : mergePass n sets = (sets, false) := by
+  induction n generalizing sets with
+  | zero =>
+    have : sets = [] := by simpa using hn
+    subst this; rfl
+  | succ n ih =>
+    cases sets with
+    | nil => rfl
+    | cons c rest =>
+      obtain ⟨h1, h2⟩ := pairwise_cons.mp h
+      simp only [length_cons] at hn
+      simp only [mergePass, absorb_of_disjoint c rest h1, ih rest (by omega) h2, Bool.or_false]
+
+theorem mergeLoop_of_disjoint (n : Nat) (sets : List SSet) (h : sets.Pairwise (fun a b => sdisjoint b a = true)) :
+    mergeLoop n sets = sets := by
+  cases n with
+  | zero => rfl
+  | succ n => simp [mergeLoop, mergePass_of_disjoint _ sets (Nat.le_refl _) h]
+
+/-- **the merged buckets are a fixed point**: merging them again changes nothing - neither the sets nor their order
+(so the `while merged` loop stops exactly at a stable state, and no further pass could join two result buckets) -/
+theorem C20_merge_idempotent (keys : List SSet) : mergeSets (mergeSets keys) = mergeSets keys := by
+  have hne := mergeSets_nonempty keys
+  have hf : (mergeSets keys).filter (fun k => !k.isEmpty) = mergeSets keys := by
+    apply filter_eq_self.mpr
+    intro a ha
+    have := hne a ha
+    cases a with
+    | nil => exact absurd rfl this
+    | cons x r => rfl
+  show mergeLoop ((mergeSets keys).filter _).length ((mergeSets keys).filter _) = _
+  rw [hf]
+  exact mergeLoop_of_disjoint _ _ (C20_merge_disjoint keys)
+
+/-- already-disjoint non-empty keys come back unchanged, in their order -/
+theorem C20_merge_disjoint_id (keys : List SSet) (hne : ∀ k ∈ keys, k ≠ [])
+    (h : keys.Pairwise (fun a b => sdisjoint b a = true)) : mergeSets keys = keys := by
+  have hf : keys.filter (fun k => !k.isEmpty) = keys := by
+    apply filter_eq_self.mpr
+    intro a ha
+    have := hne a ha
+    cases a with
+    | nil => exact absurd rfl this
+    | cons x r => rfl
+  show mergeLoop (keys.filter _).length (keys.filter _) = _
+  rw [hf]
+  exact mergeLoop_of_disjoint _ _ h
+
+example : mergeSets [["A"], ["B", "C"], ["D"]] = [["A"], ["B", "C"], ["D"]] := by decide
+
 end Ufo2ft.C20
